@@ -307,10 +307,12 @@ def verify(contract, target, make_engine, seed=0, timeout_ms=10000, both=False, 
     res.callees = sorted(eng.used_contracts)
     res.time_s = round(time.time() - t0, 3)
     res.stats = dict(eng.stats)
+    res.stats.update(getattr(res, 'stats_phases', {}))
     return res
 
 
 def _verify_body(eng, contract, target, mod, cname, node, res, seed, timeout_ms, both, want_models):
+    _t0 = time.time()
     tname = contract.labels.get(target, target)
     fn = source.prepared(node)
     fn._pyvc_prepared = True
@@ -453,7 +455,10 @@ def _verify_body(eng, contract, target, mod, cname, node, res, seed, timeout_ms,
             else:
                 anyg = z3.Or(*[g for _, g, _ in alts])
                 goal = z3.Or(*[z3.And(g, *cl.values()) for _, g, cl in alts])
-                add('%s/%s.any-of[%s]' % (tname, gname, '|'.join(cs.name for cs, _, _ in alts)), hyps0 + [anyg], goal, 'post')
+                nm_ = '%s/%s.any-of[%s]' % (tname, gname, '|'.join(cs.name for cs, _, _ in alts))
+                add(nm_, hyps0 + [anyg], goal, 'post')
+                # a path usually realises one fixed alternative: those are tried one by one before the disjunction
+                agg[nm_].setdefault('alts', {})[len(agg[nm_]['items']) - 1] = [z3.And(g, *cl.values()) for _, g, cl in alts]
                 add('%s/%s.frame' % (tname, gname), hyps0 + [anyg], frame, 'frame')
                 for case, g, cl in alts:
                     # each alternative must be realised by some path (otherwise it is dead specification)
@@ -466,78 +471,211 @@ def _verify_body(eng, contract, target, mod, cname, node, res, seed, timeout_ms,
                     for mn, mt in (contract.must_fail(cc) or {}).items():
                         if mn.startswith(case.name + ':'):
                             add('%s/canary.%s' % (tname, mn), hyps0 + [g], mt, 'canary', expect='refuted-somewhere')
-    # ---- discharge: obligations that share their hypotheses are first tried as one conjunction
-    pre_proved = set()
-    bundle_failures = 0
-    for bkey, members in bundles.items():
-        if len(members) < 2:
-            continue
-        if bundle_failures >= 3:
-            break
-        hyps = agg[members[0][0]]['items'][members[0][1]][0]
-        members = [(n, i) for n, i in members if n not in KNOWN_OPEN]
-        goals = [agg[n]['items'][i][1] for n, i in members]
-        goals = [g for g in goals if not z3.is_true(g)]
-        if not goals:
-            continue
-        r = smt.prove(hyps, z3.And(*goals), timeout_ms=timeout_ms, seed=seed, quick_only=True)
-        if r['status'] == 'proved':
-            for n, i in members:
-                pre_proved.add((n, i))
-        else:
-            bundle_failures += 1
-    failed = 0
-    for name, item in agg.items():
-        t1 = time.time()
-        if failed >= 3 and item['expect'] == 'proved':
-            # the function already fails three obligations: the rest is not examined (reported as skipped)
-            if all(z3.is_true(g) or (name, i_) in pre_proved for i_, (h_, g) in enumerate(item['items'])):
-                st_ = 'proved'
-            else:
-                st_ = 'skipped'
-            res.obligations.append({'name': name, 'status': st_, 'kind': item['kind'], 'backend': 'z3' if st_ == 'proved' else 'none',
-                                    'time_s': 0, 'paths': len(item['items']), 'tags': list(item['tags'])})
-            continue
-        statuses = []
-        backend = set()
-        model_txt = None
-        for idx_, (hyps, goal) in enumerate(item['items']):
-            if z3.is_true(goal) or (name, idx_) in pre_proved:
-                statuses.append('proved')
-                backend.add('z3')
+    # ---- discharge (fork-parallel): phase 1 bundles (obligations sharing their hypotheses, tried as one conjunction),
+    # phase 2 the remaining obligations, each name handled entirely by one worker
+    import os as _os
+    _t_build = time.time()
+    nworkers = max(1, int(_os.environ.get('PYVC_INNER_JOBS', '1')))
+    nqueries = sum(len(it['items']) for it in agg.values())
+    if nqueries < 150:
+        nworkers = 1
+
+    def phase1(keys):
+        out = []
+        fails = 0
+        for bkey in keys:
+            members = bundles[bkey]
+            if len(members) < 2:
                 continue
-            if item['expect'] == 'refuted-somewhere' and 'refuted' in statuses:
+            if fails >= 3:
                 break
-            if item['expect'] == 'proved':
-                r = smt.prove(hyps, goal, timeout_ms=timeout_ms, seed=seed, both=both, quick_only=(failed >= 2 or name in KNOWN_OPEN))
+            hyps = agg[members[0][0]]['items'][members[0][1]][0]
+            members = [(n, i) for n, i in members if n not in KNOWN_OPEN]
+            goals = [agg[n]['items'][i][1] for n, i in members]
+            goals = [g for g in goals if not z3.is_true(g)]
+            if not goals:
+                continue
+            r = smt.prove(hyps, z3.And(*goals), timeout_ms=timeout_ms, seed=seed, quick_only=True)
+            if r['status'] == 'proved':
+                out += [[n, i] for n, i in members]
             else:
-                r = smt.refute_qf(hyps, goal, seed=seed)
-            statuses.append(r['status'])
-            backend.add(r['backend'])
-            import os as _os
-            if _os.environ.get('PYVC_DEBUG') and _os.environ['PYVC_DEBUG'] in name and r['status'] != 'proved' and item['expect'] == 'proved':
-                print('=== DEBUG %s: %s' % (name, r['status']))
-                for h in hyps:
-                    print('  HYP', str(h).replace('\n', ' ')[:400])
-                print('  GOAL', str(goal).replace('\n', ' ')[:800])
-            if r['status'] == 'refuted' and item['expect'] == 'proved' and model_txt is None and want_models:
-                model_txt = _model_text(r.get('model'), hyps)
-            if r['status'] != 'proved' and item['expect'] == 'proved':
-                break
-        if item['expect'] == 'proved':
-            st = 'proved' if all(s == 'proved' for s in statuses) else ('refuted' if 'refuted' in statuses else 'undecided')
+                fails += 1
+        return out
+
+    pre_proved = set()
+    _t_p1 = time.time()
+    for part in _fork_map(phase1, _chunks(list(bundles.keys()), nworkers)):
+        for n, i in part:
+            pre_proved.add((n, i))
+
+    SLICE = 24
+
+    def phase2(units):
+        obs = []
+        failed = 0
+        for name, lo, hi in units:
+            full = agg[name]
+            item = dict(full)
+            item['items'] = full['items'][lo:hi]
+            item['alts'] = {k - lo: v for k, v in full.get('alts', {}).items() if lo <= k < hi}
+            base_ = lo
+            t1 = time.time()
+            if failed >= 3 and item['expect'] == 'proved':
+                # this worker already saw three failing obligations: the rest is not examined (reported as skipped)
+                if all(z3.is_true(g) or (name, base_ + i_) in pre_proved for i_, (h_, g) in enumerate(item['items'])):
+                    st_ = 'proved'
+                else:
+                    st_ = 'skipped'
+                obs.append({'name': name, 'status': st_, 'kind': item['kind'], 'backend': 'z3' if st_ == 'proved' else 'none',
+                            'time_s': 0, 'paths': len(item['items']), 'tags': list(item['tags'])})
+                continue
+            statuses = []
+            backend = set()
+            model_txt = None
+            for idx_, (hyps, goal) in enumerate(item['items']):
+                if z3.is_true(goal) or (name, base_ + idx_) in pre_proved:
+                    statuses.append('proved')
+                    backend.add('z3')
+                    continue
+                if item['expect'] == 'refuted-somewhere' and 'refuted' in statuses:
+                    break
+                if item['expect'] == 'proved':
+                    r = None
+                    for alt in item.get('alts', {}).get(idx_, []):
+                        # an alternative one of whose quantifier-free conjuncts contradicts the path is not this path's
+                        qf = [cj for cj in alt.children() if not smt.is_quantified(cj)]
+                        if qf and smt.check_sat(list(hyps) + qf, timeout_ms=2000, seed=seed) == 'unsat':
+                            continue
+                        r = smt.prove(hyps, alt, timeout_ms=timeout_ms, seed=seed, quick_only=True)
+                        if r['status'] == 'proved':
+                            break
+                    if r is None or r['status'] != 'proved':
+                        r = smt.prove(hyps, goal, timeout_ms=timeout_ms, seed=seed, both=both, quick_only=(failed >= 2 or name in KNOWN_OPEN))
+                else:
+                    r = smt.refute_qf(hyps, goal, seed=seed)
+                statuses.append(r['status'])
+                backend.add(r['backend'])
+                if _os.environ.get('PYVC_DEBUG') and _os.environ['PYVC_DEBUG'] in name and r['status'] != 'proved' and item['expect'] == 'proved':
+                    print('=== DEBUG %s: %s' % (name, r['status']))
+                    for h in hyps:
+                        print('  HYP', str(h).replace('\n', ' ')[:400])
+                    print('  GOAL', str(goal).replace('\n', ' ')[:800])
+                    for ai, alt in enumerate(item.get('alts', {}).get(idx_, [])):
+                        for ci, conj in enumerate(alt.children()):
+                            rr = smt.prove(hyps, conj, timeout_ms=4000, seed=seed, quick_only=True)
+                            print('   ALT', ai, 'conjunct', ci, rr['status'], str(conj).replace('\n', ' ')[:160])
+                if r['status'] == 'refuted' and item['expect'] == 'proved' and model_txt is None and want_models:
+                    model_txt = _model_text(r.get('model'), hyps)
+                if r['status'] != 'proved' and item['expect'] == 'proved':
+                    break
+            if item['expect'] == 'proved':
+                st = 'proved' if all(s == 'proved' for s in statuses) else ('refuted' if 'refuted' in statuses else 'undecided')
+            else:
+                st = 'proved' if 'refuted' in statuses else ('vacuous' if all(s == 'proved' for s in statuses) else 'undecided')
+            if st != 'proved' and item['expect'] == 'proved' and name not in KNOWN_OPEN:
+                failed += 1
+            ob = {'name': name, 'status': st, 'kind': item['kind'], 'backend': '+'.join(sorted(backend)) or 'syntactic',
+                  'time_s': round(time.time() - t1, 4), 'paths': len(item['items']), 'tags': list(item['tags'])}
+            if 'why' in item:
+                ob['why'] = sorted(item['why'])
+            if model_txt:
+                ob['model'] = model_txt
+            obs.append(ob)
+        return obs
+
+    _t_p2 = time.time()
+    order = {n: k for k, n in enumerate(agg)}
+    units = []
+    for n_, it_ in agg.items():
+        m_ = len(it_['items'])
+        if nworkers > 1 and m_ > SLICE and it_['expect'] == 'proved':
+            units += [(n_, a_, min(m_, a_ + SLICE)) for a_ in range(0, m_, SLICE)]
         else:
-            st = 'proved' if 'refuted' in statuses else ('vacuous' if all(s == 'proved' for s in statuses) else 'undecided')
-        if st != 'proved' and item['expect'] == 'proved' and name not in KNOWN_OPEN:
-            failed += 1
-        ob = {'name': name, 'status': st, 'kind': item['kind'], 'backend': '+'.join(sorted(backend)) or 'syntactic',
-              'time_s': round(time.time() - t1, 4), 'paths': len(item['items']), 'tags': list(item['tags'])}
-        if 'why' in item:
-            ob['why'] = sorted(item['why'])
-        if model_txt:
-            ob['model'] = model_txt
-        res.obligations.append(ob)
+            units.append((n_, 0, m_))
+    got = []
+    for part in _fork_map(phase2, _chunks(units, nworkers, interleave=True)):
+        got += part
+    # merge the slices of one obligation: proved iff every slice is
+    merged = {}
+    rank = {'refuted': 4, 'undecided': 3, 'vacuous': 2, 'skipped': 1, 'proved': 0}
+    for o in got:
+        m = merged.get(o['name'])
+        if m is None:
+            merged[o['name']] = o
+            continue
+        m['paths'] += o['paths']
+        m['time_s'] = round(m['time_s'] + o['time_s'], 4)
+        if rank[o['status']] > rank[m['status']]:
+            m['status'] = o['status']
+            for k_ in ('model', 'why'):
+                if k_ in o:
+                    m[k_] = o[k_]
+        m['backend'] = '+'.join(sorted(set(m['backend'].split('+')) | set(o['backend'].split('+')) - {'none'})) or m['backend']
+    got = sorted(merged.values(), key=lambda o: order[o['name']])
+    res.obligations += got
+    res.stats_phases = {'exec+build_s': round(_t_build - _t0, 1), 'bundles_s': round(_t_p2 - _t_p1, 1), 'rest_s': round(time.time() - _t_p2, 1),
+                        'queries': nqueries, 'workers': nworkers}
     res.feasible_paths = len(outs)
+
+
+def _chunks(xs, k, interleave=False):
+    if k <= 1 or len(xs) <= 1:
+        return [xs]
+    k = min(k, len(xs))
+    if interleave:
+        return [xs[i::k] for i in range(k)]
+    n = (len(xs) + k - 1) // k
+    return [xs[i:i + n] for i in range(0, len(xs), n)]
+
+
+def _fork_map(fn, parts):
+    """Run fn(part) for every part, each in a forked child (the z3 terms live in the parent's memory image); results
+    come back as JSON through a pipe.  With a single part, runs in-process."""
+    import json as _json
+    import os as _os
+    parts = [p for p in parts if p]
+    if len(parts) <= 1:
+        return [fn(p) for p in parts]
+    kids = []
+    for part in parts:
+        r, w = _os.pipe()
+        pid = _os.fork()
+        if pid == 0:
+            code = 0
+            try:
+                _os.close(r)
+                import signal as _signal
+                _signal.alarm(0)
+                out = fn(part)
+                data = _json.dumps({'ok': out}).encode()
+            except BaseException as e:      # noqa
+                import traceback as _tb
+                data = _json.dumps({'err': '%s\n%s' % (e, _tb.format_exc())}).encode()
+                code = 1
+            try:
+                with _os.fdopen(w, 'wb') as f:
+                    f.write(data)
+            finally:
+                _os._exit(code)
+        _os.close(w)
+        kids.append((pid, r))
+    results = []
+    err = None
+    for pid, r in kids:
+        with _os.fdopen(r, 'rb') as f:
+            data = f.read()
+        _os.waitpid(pid, 0)
+        try:
+            d = _json.loads(data.decode())
+        except Exception:
+            d = {'err': 'worker died without a result'}
+        if 'err' in d:
+            err = d['err']
+        else:
+            results.append(d['ok'])
+    if err is not None:
+        raise RuntimeError('discharge worker failed: ' + err)
+    return results
 
 
 def _param_facts(ctx):
